@@ -359,6 +359,8 @@ pub fn one_case(r: &mut Rng, shape: &Shape) -> String {
             2 => *r.pick(&[2u64, 4, 6, 8, 9, 7, 0]),
             3 => *r.pick(&[2u64, 6, 6, 6, 6, 3, 7, 7, 7]),
             4 => *r.pick(&[1u64, 1, 1, 2, 4]),
+            // immutable store under pressure: repeated puts of few values with little reading in between
+            5 => *r.pick(&[8u64, 8, 8, 8, 8, 8, 4, 2, 0]),
             _ => r.below(10),
         };
         let mut vok = false;
@@ -618,6 +620,8 @@ pub fn generate(seed: u64, scale: usize, which: &str) -> Cases {
             ("tok_default", Shape { steps: 60, caps: (0, 0, 0, 0), focus: 2 }, 8),
         ],
         _ => vec![
+            ("imm_lru_cap2", Shape { steps: 70, caps: (2, 2, 2, 2), focus: 5 }, 3),
+            ("imm_lru_cap3", Shape { steps: 90, caps: (2, 2, 3, 2), focus: 5 }, 3),
             ("mixed_cap1", Shape { steps: 30, caps: (1, 1, 1, 1), focus: 0 }, 4),
             ("mixed_cap2", Shape { steps: 40, caps: (2, 2, 2, 2), focus: 0 }, 4),
             ("mixed_cap3", Shape { steps: 50, caps: (3, 3, 3, 3), focus: 0 }, 4),
